@@ -233,6 +233,13 @@ def memsim_ops(config, flags):
         for (m, n) in SHAPES2[1:13]:   # outer of two 1-vectors is ambiguous
             reg(f'op_outer_inner<{t},{m},{n}>', 'outer_inner')
             reg(f'op_einsum_outer<{t},{m},{n}>', 'einsum')
+    for t in ('float', 'double', 'int'):
+        for (m, k, n) in ((3, 3, 3), (4, 5, 6), (2, 7, 9), (8, 8, 8), (17, 3, 5), (24, 24, 24), (32, 4, 32), (36, 2, 36), (20, 20, 20)):
+            if t == 'double' and m * n * 8 > 8192:
+                continue
+            reg(f'op_lazy_matmul_ops<{t},{m},{k},{n}>', 'lazy_matmul_compound', keep=True)
+            if t != 'int':
+                reg(f'op_lazy_matmul_div<{t},{m},{k},{n}>', 'lazy_matmul_compound', keep=True)
     for t in FLOATS:
         reg(f'op_cross3<{t}>', 'cross')
         reg(f'op_cross2<{t}>', 'cross')
@@ -487,7 +494,7 @@ M_SHAPES = [((6,), (2, 3), (3, 2)), ((12,), (3, 4), (2, 2, 3)), ((16,), (4, 4), 
             ((9,), (3, 3), (1, 9)), ((35,), (5, 7), (7, 5)), ((64,), (8, 8), (4, 4, 4)), ((30,), (2, 15), (2, 3, 5)), ((48,), (6, 8), (2, 2, 3, 4)),
             ((7,), (7, 1), (1, 1, 7)), ((33,), (3, 11), (11, 3))]
 M_KINDS = ['K_SCALAR', 'K_TENSOR', 'K_EXPR', 'K_SELF_EXPR', 'K_METHOD', 'K_ELEM', 'K_FIXVIEW', 'K_DYNVIEW', 'K_REDUCE', 'K_READ_EXPR', 'K_MATMUL',
-           'K_REWRAP', 'K_SOURCE_WRITE', 'K_CTOR_LAYOUT', 'K_MAP_COPY']
+           'K_REWRAP', 'K_SOURCE_WRITE', 'K_CTOR_LAYOUT', 'K_MAP_COPY', 'K_CROSS_HANDLE']
 
 
 def gen_mapsim(bdir, config, flags):
